@@ -719,6 +719,10 @@ func (h *fsHandler) openIndexFile(ctx *RequestContext, dirPath string, mustCompr
 	for _, indexName := range h.indexNames {
 		indexFilePath := dirPath + "/" + indexName
 		ff, err := h.openFSFile(indexFilePath, mustCompress)
+		if mustCompress && err == errNoCreatePermission {
+			// as for any other file: no compressed copy can be saved, serve it as it is
+			ff, err = h.openFSFile(indexFilePath, false)
+		}
 		if err == nil {
 			return ff, nil
 		}
